@@ -213,3 +213,23 @@ CHECKS['C05'] = dict(
     assumptions=['a NULL iterator counts as the empty result'],
     budget={'quick': 400, 'thorough': 2400},
 )
+
+_SRT = H('h_sorter.c', 'asan', tu_flags={'mtbl/sorter.c': ['-Dmkstemp=vf_mkstemp']})
+_SRT_NOHOOK = H('h_sorter.c', 'asan', tu_flags={'mtbl/sorter.c': ['-Dmkstemp=vf_mkstemp']}, lib_flags=['-UMTBL_VERIF'])
+CHECKS['C06'] = dict(
+    level=MC, engine='seqx',
+    technique='exhaustive enumeration of input sequences x every memory budget (hence every chunking the budget mechanism can produce) through the real sorter, fold-tree merge oracle; mkstemp seam; cross-check without the hook at the real 10 MiB floor',
+    text='Every input sequence of length <=6 (thorough <=8) over keys {empty, a, b} with unique value tags is sorted under every max_memory from 1 byte up to everything-in-memory (the MTBL_VERIF hook lets the public setter go that low), through the iterator and through mtbl_sorter_write (file decoded independently). Output must be the distinct keys ascending with fold trees whose leaves are exactly the values added per key. The mkstemp seam records every spill template (must lie directly in the configured directory) and the spill count after each add (a spill must have happened once buffered key+value bytes reach the limit). After iteration began add/write must be refused and change nothing. Pools of 1,2,8 real threads for inputs <=4; one run per tier is repeated WITHOUT the hook at the genuine 10 MiB floor with 3.5 MiB values.',
+    jobs=[
+        dict(name='sequences', spec=_SRT, args=['seq']),
+        dict(name='pooled', spec=_SRT, args=['pool']),
+        dict(name='nohook-10MiB', spec=_SRT_NOHOOK, args=['nohook'], shards=1),
+    ],
+    states_key='cases', transitions_key='transitions', traces_key='cases',
+    rule='one case = (key sequence, budget, pool size, iterate|write, merge on/off); signature = (#chunks, length, pool, mode)',
+    bounds={'quick': 'sequences of length<=6 over 3 keys (1093) x every budget 1..cost+2 (step 3 for n=6) x {iterate, write}; pooled: length<=4 x pools {1,2,8} (budget step 5); 6 runs at the unhooked 10 MiB floor',
+            'thorough': 'length<=8 (9841 sequences; every budget for n<=6, step 7 above); pooled length<=5'},
+    nonzero=['cases', 'multi_chunk_runs'],
+    assumptions=['spilling earlier than the limit is accepted', 'spill timing is only observed without a pool (with a pool the spill is asynchronous)'],
+    budget={'quick': 300, 'thorough': 2400},
+)
